@@ -313,8 +313,12 @@ class Emitter:
                     if fmt != 64 and not (j == (i + 1) % n or j == i):
                         continue
                     t = inst['fmts'][str(fmt)]['tree']
-                    assert t['t'] == 'leaf', 'branching scalar conversion'
-                    outs = {o['l'].split(':')[0]: o['t'] for o in t['outs']}
+                    outs = {o['l'].split(':')[0]: o['t'] for o in t['outs']} if t['t'] == 'leaf' else {}
+                    if 'r' not in outs or 'arg' not in outs:
+                        # the real code threw (or branched) on this pair: recorded in Throws.lean; here the row
+                        # carries an indeterminate value, which no checker accepts
+                        rows.append('(%d, %d, .uninit %s, .uninit %s)' % (i, j, FM[fmt], FM[fmt]))
+                        continue
                     rows.append('(%d, %d, %s, %s)' % (i, j, expr(sexpr.parse(outs['r'])),
                                                       expr(sexpr.parse(outs['arg']))))
                 chunks = [rows[k:k + 100] for k in range(0, len(rows), 100)]
@@ -528,6 +532,9 @@ OBLIGATIONS = [
     ('C16cast', 'Q', 'Chk.C16cast', 'quantityEntries'),
     ('C17access', 'Q', 'Chk.C17access', 'quantityEntries'),
     ('C10scale', 'Q', 'Chk.C10scale', 'quantityEntries'),
+    ('NarrowQ', 'Q', 'Chk.NoNarrowing', 'quantityEntries'),
+    ('NarrowU', 'U', 'Chk.NoNarrowing', 'unitEntries'),
+    ('NarrowM', 'M', 'Chk.NoNarrowing', 'modelEntries'),
     ('C20uninitQ', 'Q', 'Chk.C20uninitStrict', 'quantityEntries'),
     ('C20uninitU', 'U', 'Chk.C20uninitStrict', 'unitEntries'),
     ('C20uninitM', 'M', 'Chk.C20uninit', 'modelEntries'),
